@@ -148,6 +148,11 @@ func (k Keeper) VerifyDeposit(ctx context.Context, headers map[uint64][]byte, de
 
 	// check if the deposit script is valid
 	txOut := tx.TxOut[deposit.OutputIndex]
+	// the value is a signed field of the raw transaction: a negative value
+	// must not be reinterpreted as a huge unsigned amount
+	if txOut.Value < 0 {
+		return nil, errorsmod.Wrap(sdkerrors.ErrInvalidRequest, "invalid output value")
+	}
 	txAmount := uint64(txOut.Value)
 	if txAmount < param.MinDepositAmount {
 		return nil, errorsmod.Wrap(sdkerrors.ErrInvalidRequest, "amount too low")
